@@ -58,13 +58,13 @@ def run_case(tape, tier):
     nreq = 1 + tape.draw("nreq", 6 if tier == "quick" else 8)
     reqs = []
     for i in range(nreq):
-        method = tape.pick("method", ["GET", "POST", "PUT"])
-        body = b"" if method == "GET" else b"body-of-%d" % i
+        method = tape.pick("method", ["GET", "POST", "PUT", "GET", "POST", "PUT", "HEAD"])
+        body = b"" if method in ("GET", "HEAD") else b"body-of-%d" % i
         # how the payload is given: as body=, as data= (sent as JSON), as fargs= (sent as a form) or not at all; what one
         # request was given must not show up in another
-        how = "body" if method == "GET" else tape.pick("payload_how", ["body", "body", "data", "fargs", "none"])
+        how = "body" if method in ("GET", "HEAD") else tape.pick("payload_how", ["body", "body", "data", "fargs", "none"])
         early = False
-        if method != "GET" and how == "body" and tape.flag("big_upload", 1, 5):
+        if method not in ("GET", "HEAD") and how == "body" and tape.flag("big_upload", 1, 5):
             # an upload several times the socket buffer: it goes out over many service passes; the peer answers it on sight
             body = bytes(97 + (j * 7 + i) % 26 for j in range(tape.pick("big_n", [3000, 5000, 9000])))
             early = tape.flag("answered_early", 2, 3)
@@ -151,8 +151,14 @@ def run_case(tape, tier):
             return reqbody == (b"" if rq["how"] == "none" else rq["body"])
         violation = []
 
-        def respond_bytes(r, hop, peer_port):
+        def respond_bytes(r, hop, peer_port, wire_method="GET"):
             """response for request r at hop index `hop` (0 = original request)"""
+            if wire_method == "HEAD" and hop >= len(r["hops"]):
+                # the answer to a HEAD request: the head a GET would get (length of the body it does not send included), no body
+                res.probes["head_request_answered"] += 1
+                closing = rc_at == r["i"]
+                return (b"HTTP/1.1 200 OK\r\n" + (b"Connection: close\r\n" if closing else b"") +
+                        b"Content-Length: %d\r\n\r\n" % len(b"answer-for-%d" % r["i"])), closing
             if hop < len(r["hops"]):
                 h = r["hops"][hop]
                 path = "/m%d/h%d" % (r["i"], hop + 1)
@@ -258,7 +264,7 @@ def run_case(tape, tier):
                     violation.append(("unfollowable-redirect-followed", "request %d: hop %d (%s) cannot be followed (%s) but the client "
                                       "sent the request for hop %d to port %d" % (mid, sa, r["hops"][sa]["status"], r["hops"][sa]["target"], hop, port)))
                     hop = len(r["hops"])     # answer it plainly so that the run goes on
-                data, close_after = respond_bytes(r, hop, port)
+                data, close_after = respond_bytes(r, hop, port, wire_method)
                 n = r["nfrag"]
                 cuts = sorted(set(1 + tape.draw("rcut", max(1, len(data) - 1)) for _ in range(n - 1))) if len(data) > 1 else []
                 b = [0] + cuts + [len(data)]
@@ -379,7 +385,7 @@ def run_case(tape, tier):
                             break
                         res.probes["unfollowable_redirect_reported"] += 1
                         continue
-                    if e["status"] != 200 or e["body"] != b"answer-for-%d" % mid:
+                    if e["status"] != 200 or e["body"] != (b"answer-for-%d" % mid if r["method"] != "HEAD" else b""):
                         res.violate("fifo-wrong-response", "entry for request %d appeared with status %s body %r" % (mid, e["status"], e["body"][:40]))
                         break
                     if e["errored"]:
